@@ -121,8 +121,17 @@ fn replay(env: &Env) {
         let xdg = env.fresh_xdg(&format!("replay-{}", which));
         let mut t = Trace::create(&env.a.out.join(format!("replay.{}.trace", which)), &env.tsv);
         if layout != PHONETIC { t.layout(&layout, &env.tsv); }
-        let mut s = match Sess::new(&mut t, &env.data, "r", &layout, opts, &xdg) { Some(s) => s, None => { println!("new: PANIC"); continue; } };
+        // a routed context (Sess::new_routed) records how it was born: created with another layout / other options, then updated
+        let (mut layout_b, mut opts_b) = (layout.clone(), opts);
+        if let Some(b) = evs.first().and_then(|e| e.as_str()).and_then(|e| e.strip_prefix("born ")) {
+            let f: Vec<&str> = b.split(' ').collect();
+            if f.len() == 2 { layout_b = f[0].to_string(); opts_b = Opts::from_bits(f[1].chars().enumerate().fold(0u32, |acc, (i, c)| if c == '1' { acc | 1 << i } else { acc }));
+                if layout_b != PHONETIC { t.layout(&layout_b, &env.tsv); }
+                println!("   (born as layout {} opts {})", layout_b, opts_b.bits_str()); }
+        }
+        let mut s = match Sess::new(&mut t, &env.data, "r", &layout_b, opts_b, &xdg) { Some(s) => s, None => { println!("new: PANIC"); continue; } };
         for e in evs {
+            if e.as_str().map(|x| x.starts_with("born ")).unwrap_or(false) { continue; }
             let e = e.as_str().unwrap_or("").to_string();
             let f: Vec<&str> = e.split(' ').collect();
             let n = |i: usize| f.get(i).and_then(|x| x.parse::<u32>().ok()).unwrap_or(0);
